@@ -161,10 +161,46 @@ def battery(seeds, pre=None):
     return out.items
 
 
+def battery_schemes(seeds, reverse=False):
+    """Every path-generating entry point that takes a scheme enum, for EVERY scheme enum, with all other arguments and the
+    seed identical within a family; the calls are made in list order or in REVERSED order (`reverse`), one after the
+    other in the same interpreter.  A result that depends on which scheme was simulated before (paths kept from an
+    earlier call under a key that omits the scheme) differs between the two orders."""
+    from financepy.models.process_simulator import FinProcessSimulator, ProcessTypes, FinGBMNumericalScheme, FinHestonNumericalScheme, \
+        FinVasicekNumericalScheme, CIRNumericalScheme
+    from financepy.products.equity.equity_barrier_option import EquityBarrierOption, EquityBarrierTypes
+    from financepy.products.fx.fx_barrier_option import FXBarrierOption, FinFXBarrierTypes
+    from financepy.utils.date import Date
+    vd = Date(20, 3, 2024)
+    ed = vd.add_days(365)
+    jobs = []
+    for sd in (int(seeds[0]), int(seeds[1])):
+        fams = [(ProcessTypes.GBM, (100.0, 0.03, 0.25), list(FinGBMNumericalScheme)),
+                (ProcessTypes.HESTON, (100.0, 0.03, 0.04, 1.5, 0.05, 0.4, -0.6), list(FinHestonNumericalScheme)),
+                (ProcessTypes.VASICEK, (0.03, 0.6, 0.05, 0.01), list(FinVasicekNumericalScheme)),
+                (ProcessTypes.CIR, (0.04, 0.5, 0.05, 0.15), [x for x in CIRNumericalScheme if x.name != 'EXACT'])]
+        for pt, pars, schemes in fams:
+            for sch in schemes:
+                jobs.append((f'get_process.{pt.name}.{sch.name}.{sd}',
+                             lambda pt=pt, pars=pars, sch=sch, sd=sd: bits(FinProcessSimulator().get_process(pt, 1.0, pars + (sch,), 12, 40, sd))))
+        for sch in FinGBMNumericalScheme:
+            jobs.append((f'EquityBarrierOption.value_mc.{sch.name}.{sd}',
+                         lambda sch=sch, sd=sd: bits(EquityBarrierOption(ed, 100.0, EquityBarrierTypes.DOWN_AND_OUT_CALL, 85.0, 12).value_mc(
+                             1.0, 100.0, EquityBarrierTypes.DOWN_AND_OUT_CALL.value, 85.0, 1.0, 100.0, 0.03, ProcessTypes.GBM, (100.0, 0.02, 0.25, sch), 12, 200, sd))))
+            jobs.append((f'FXBarrierOption.value_mc.{sch.name}.{sd}',
+                         lambda sch=sch, sd=sd: bits(FXBarrierOption(ed, 1.1, 'EURUSD', FinFXBarrierTypes.DOWN_AND_OUT_CALL, 0.95, 12, 1.0, 'USD').value_mc(
+                             vd, 1.1, 0.03, ProcessTypes.GBM, (1.1, 0.01, 0.12, sch), 12, 200, sd))))
+    res = {}
+    for name, th in (reversed(jobs) if reverse else jobs):
+        res[name] = th()
+    return [(name, res[name]) for name, _ in jobs]
+
+
 def sub_main():
     seeds = [int(x) for x in sys.argv[1:3]]
+    rev = len(sys.argv) > 3 and sys.argv[3] == 'reverse'
     C.import_financepy()
-    print('BATTERY ' + json.dumps(battery(seeds)))
+    print('BATTERY ' + json.dumps(battery(seeds) + battery_schemes(seeds, reverse=rev)))
 
 
 def start_subprocesses(seeds):
@@ -181,7 +217,7 @@ def start_subprocesses(seeds):
             env.pop(k, None)
         env.update(e)
         env['FINVERIF_REPO'] = C.REPO
-        procs[name] = subprocess.Popen([sys.executable, '-c', code, str(seeds[0]), str(seeds[1])], env=env,
+        procs[name] = subprocess.Popen([sys.executable, '-c', code, str(seeds[0]), str(seeds[1]), 'reverse' if name == 'many-threads' else 'forward'], env=env,
                                        stdout=subprocess.PIPE, stderr=subprocess.PIPE, text=True)
     return procs
 
